@@ -1,7 +1,24 @@
 """Layer-M TLC jobs per property (implementation-shaped models explored by TLC)."""
 import core
 
-JOBS = {}
+JOBS = {
+    ("C12", "quick"): [dict(module="GapSweep", cfg="GapSweep_quick.cfg", workers=8)],
+    ("C12", "thorough"): [dict(module="GapSweep", cfg="GapSweep_thorough.cfg", workers=12, timeout=7200)],
+    ("C01", "quick"): [dict(module="Turnaround", cfg="Turnaround_fixed.cfg", workers=4)],
+    ("C01", "thorough"): [dict(module="Turnaround", cfg="Turnaround_fixed.cfg", workers=4), dict(module="Turnaround", cfg="Turnaround_slot200.cfg", workers=4),
+                          dict(module="Turnaround", cfg="Turnaround_gap.cfg", workers=4)],
+    # Ring.tla: N stations built from FdlStation!DoPoll in synchronous rounds.  Fault-free configurations: no
+    # collision, no panic, no GAP request outside the gap, and <>[]Converged under weak fairness.
+    ("C02", "quick"): [dict(module="Ring", cfg="MC_RingFF_quick.cfg", workers=8), dict(module="Ring", cfg="MC_RingFF_two.cfg", workers=4)],
+    ("C02", "thorough"): [dict(module="Ring", cfg="MC_RingFF_quick.cfg", workers=8), dict(module="Ring", cfg="MC_RingFF_two.cfg", workers=4),
+                          dict(module="Ring", cfg="MC_RingFF_four.cfg", workers=12, timeout=3600), dict(module="Ring", cfg="MC_RingFF_hsa6.cfg", workers=8),
+                          dict(module="Ring", cfg="MC_RingFF_base6.cfg", workers=8)],
+    # with faults (leave, join onto a running bus, lost telegram): safety and <>[]Converged once the budgets are spent
+    ("C06", "quick"): [dict(module="Ring", cfg="MC_RingFault_leave.cfg", workers=8), dict(module="Ring", cfg="MC_RingFault_drop.cfg", workers=4)],
+    ("C06", "thorough"): [dict(module="Ring", cfg="MC_RingFault_leave.cfg", workers=8), dict(module="Ring", cfg="MC_RingFault_drop.cfg", workers=4),
+                          dict(module="Ring", cfg="MC_RingFault_leavejoin.cfg", workers=12, timeout=3600),
+                          dict(module="Ring", cfg="MC_RingFault_quick.cfg", workers=12, timeout=5400, allow_timeout=True)],
+}
 
 
 def jobs(prop, tier):
